@@ -169,8 +169,139 @@ fn one(line: &str, idx: usize) -> serde_json::Value {
   out
 }
 
+/// Protocol `errset` (see lean/Driver/C12.lean): the real `samlang_errors::ErrorSet`, real
+/// `Location`/`ModuleReference`/`PStr` values; the handles are allocated in the order given on the line.
+fn errset_line(line: &str) -> String {
+  use samlang_ast::{Location, Position};
+  use samlang_errors::{ErrorDetail, ErrorSet};
+  use samlang_heap::PStr;
+  let t: Vec<&str> = line.split_whitespace().collect();
+  if t.len() != 4 || t[0] != "merge" {
+    return "bad-op".to_string();
+  }
+  let nats = |s: &str| -> Vec<usize> {
+    if s == "-" { vec![] } else { s.split(',').map(|x| x.parse().unwrap()).collect() }
+  };
+  let mut heap = Heap::new();
+  let mut mods: HashMap<usize, ModuleReference> = HashMap::new();
+  let mut mod_back: HashMap<ModuleReference, usize> = HashMap::new();
+  for m in nats(t[1]) {
+    let r = heap.alloc_module_reference_from_string_vec(vec![format!("M{m}")]);
+    mods.insert(m, r);
+    mod_back.insert(r, m);
+  }
+  let mut strs: HashMap<usize, PStr> = HashMap::new();
+  let mut str_back: HashMap<PStr, usize> = HashMap::new();
+  for h in nats(t[2]) {
+    let p = heap.alloc_string(format!("LongHeapStringName{h:05}"));
+    strs.insert(h, p);
+    str_back.insert(p, h);
+  }
+  let pstr_of = |heap: &mut Heap, a: &str| -> PStr {
+    if let Some(h) = a.strip_prefix('h') {
+      strs[&h.parse::<usize>().unwrap()]
+    } else {
+      heap.alloc_string(samverif_harness::util::unhex_str(&a[1..]))
+    }
+  };
+  let mut global = ErrorSet::new();
+  for group in t[3].split(';') {
+    let mut local = ErrorSet::new();
+    if group != "-" {
+      for e in group.split(',') {
+        let f: Vec<&str> = e.split('.').collect();
+        let n = |i: usize| f[i].parse::<u32>().unwrap();
+        let loc = Location {
+          module_reference: mods[&(n(0) as usize)],
+          start: Position(n(1), n(2)),
+          end: Position(n(3), n(4)),
+        };
+        let atoms: Vec<&str> = if f[6] == "-" { vec![] } else { f[6].split('+').collect() };
+        match n(5) {
+          0 => {
+            let m = mods[&atoms[0][1..].parse::<usize>().unwrap()];
+            let name = pstr_of(&mut heap, atoms[1]);
+            local.report_cannot_resolve_class_error(loc, m, name)
+          }
+          2 => local.report_cannot_resolve_module_error(loc, mods[&atoms[0][1..].parse::<usize>().unwrap()]),
+          3 => {
+            let name = pstr_of(&mut heap, atoms[0]);
+            local.report_cannot_resolve_name_error(loc, name)
+          }
+          6 => local.report_illegal_function_in_interface(loc),
+          9 => local.report_invalid_syntax_error(loc, samverif_harness::util::unhex_str(&atoms[0][1..])),
+          10 => {
+            let v: Vec<PStr> = atoms.iter().map(|a| pstr_of(&mut heap, a)).collect();
+            local.report_missing_class_member_definition_error(loc, v)
+          }
+          14 => local.report_non_exhaustive_tuple_binding_error(
+            loc,
+            atoms[0][1..].parse().unwrap(),
+            atoms[1][1..].parse().unwrap(),
+          ),
+          21 => local.report_underconstrained_error(loc),
+          22 => local.report_useless_pattern_error(loc, &atoms[0][1..] == "1"),
+          _ => return "bad-rank".to_string(),
+        }
+      }
+    }
+    global.merge(local);
+  }
+  let show_pstr = |p: &PStr| -> String {
+    match str_back.get(p) {
+      Some(h) => format!("h{h}"),
+      None => format!("i{}", samverif_harness::util::hex(p.as_str(&heap).as_bytes())),
+    }
+  };
+  let mut out: Vec<String> = Vec::new();
+  for e in global.errors() {
+    let l = &e.location;
+    let (rank, atoms): (u32, Vec<String>) = match &e.detail {
+      ErrorDetail::CannotResolveClass { module_reference, name } => {
+        (0, vec![format!("m{}", mod_back[module_reference]), show_pstr(name)])
+      }
+      ErrorDetail::CannotResolveModule { module_reference } => {
+        (2, vec![format!("m{}", mod_back[module_reference])])
+      }
+      ErrorDetail::CannotResolveName { name } => (3, vec![show_pstr(name)]),
+      ErrorDetail::IllegalFunctionInInterface => (6, vec![]),
+      ErrorDetail::InvalidSyntax(s) => (9, vec![format!("i{}", samverif_harness::util::hex(s.as_bytes()))]),
+      ErrorDetail::MissingClassMemberDefinitions { missing_definitions } => {
+        (10, missing_definitions.iter().map(show_pstr).collect())
+      }
+      ErrorDetail::NonExhaustiveTupleBinding { expected_count, actual_count } => {
+        (14, vec![format!("n{expected_count}"), format!("n{actual_count}")])
+      }
+      ErrorDetail::Underconstrained => (21, vec![]),
+      ErrorDetail::UselessPattern { only_pattern } => (22, vec![format!("n{}", *only_pattern as u8)]),
+      _ => (99, vec![]),
+    };
+    out.push(format!(
+      "{}.{}.{}.{}.{}.{}.{}",
+      mod_back[&l.module_reference],
+      l.start.0,
+      l.start.1,
+      l.end.0,
+      l.end.1,
+      rank,
+      if atoms.is_empty() { "-".to_string() } else { atoms.join("+") }
+    ));
+  }
+  if out.is_empty() { "-".to_string() } else { out.join(",") }
+}
+
 fn main() {
   std::panic::set_hook(Box::new(|_| {}));
+  if std::env::args().nth(1).as_deref() == Some("errset") {
+    samverif_harness::util::for_each_line(|line| {
+      let l = line.to_string();
+      match std::panic::catch_unwind(move || errset_line(&l)) {
+        Ok(a) => a,
+        Err(e) => format!("panic:{}", samverif_harness::util::panic_msg(&e)),
+      }
+    });
+    return;
+  }
   let lines: Vec<String> = std::io::stdin()
     .lock()
     .lines()
